@@ -106,8 +106,8 @@ func dischargeFunc(sv *Solver, fr *FuncResult, par int) map[string]*oblStatus {
 			defer func() { <-sem }()
 			st := &oblStatus{Name: name, Reach: true, Solver: map[string]int{}, Goal: group[0].Goal, Pos: group[0].Pos}
 			for gi, o := range group {
-				if gi >= 3 && st.Unsat == 0 {
-					break // a few inconclusive attempts are enough for a vacuity guard
+				if gi >= 1 && st.Unsat == 0 || gi >= 4 {
+					break // an inconclusive attempt is enough for a vacuity guard; after an unsat one, look a bit further
 				}
 				r := sv.solve(o.Name(), pre+o.Script, nil, true)
 				st.Instances++
